@@ -127,7 +127,7 @@ CLAIMED = {
 # What was added after the first build (seed rounds and the per-monitor
 # reviews in audit/); appended to the level text of each check.
 ADDED = {
-    "C01": " Added since: a large_targets stream (frames up to 2048 px, every pixel judged; violations that the drift model of known finding F9 explains carry their own signatures), eleven attribute types (incl. Angle, Point3, nested tuples, colour+point), scenes scaled by 2^k (k = −60..60), w over 3.5 decades in one triangle, sub-pixel and few-pixel triangles on pixel centres, 1/8-pixel lattice geometry, +inf prior depth, colour-only overlaps judged against every covering triangle, non-finite clipper output reported, Batch on colour-only targets, mirrored viewports.",
+    "C01": " Added since: a large_targets stream (frames up to 2048 px, every pixel judged; violations that the drift model of known finding F9 explains carry their own signatures), eleven attribute types (incl. Angle, Point3, nested tuples, colour+point), scenes scaled by 2^k (k = −60..60), w over 3.5 decades in one triangle, sub-pixel and few-pixel triangles on pixel centres, 1/8-pixel lattice geometry, +inf prior depth, colour-only overlaps judged against every covering triangle, non-finite clipper output reported, Batch on colour-only targets, mirrored viewports. Value tolerances also carry the clip coordinates' own f32 rounding (one ulp of the triangle's largest coordinate × 1/w × half the viewport) and a rounding floor amplified by (largest 1/w)/(1/w at the pixel); Batch/Camera images are judged by the oracle when their bits differ from render().",
     "C02": " Added since: a stream of scenes whose vertices lie bit-exactly on frustum planes (vertex/edge/whole triangle in a plane, touching from outside, corner touches) in multi-triangle calls, frames up to 4096 px (elongated and realistic sizes), an extra pass with every fragment written for scenes whose flags could hide a stray fragment, mirrored viewports, free (log-uniform) near/far/focal, off-axis and flipped orthographic boxes, triangles naming a vertex twice; generators aimed at the two defects the thorough tier found (F14, F15).",
     "C03": " Added since: scale invariance (clip(2^k·T) = 2^k·clip(T) bit for bit, k down to −120), near-plane relative distances 1e-7..1e-2, degenerate inputs range-checked, batches of 0/1/64/1000 triangles with each member's output judged absolutely, eleven attribute types, position tolerance and band tightened to 3e-6·scale.",
     "C04": " Added since: triangles reaching into negative coordinates judged on the pixels unsigned coordinates can address, small triangles at offsets up to 65536, all six vertex orders at extents up to 2048, a per-triangle drift allowance (rows stepped, not the frame size) for known finding F9, judging continues past drift-class hits.",
